@@ -41,6 +41,16 @@ func main() {
 			usage()
 		}
 		os.Exit(runCheck(*repo, *verif, *prop, *tier, *timeout, *par, *keep))
+	case "conformance":
+		n := 150
+		if *tier == "thorough" {
+			n = 1500
+		}
+		to := *timeout
+		if to == 0 {
+			to = 30
+		}
+		os.Exit(runConformance(*repo, *verif, n, to, *par))
 	case "vc", "ssa", "list", "locals":
 		os.Exit(runDebug(cmd, *repo, *verif, *fnKey, *out, *timeout, *par))
 	default:
